@@ -900,6 +900,22 @@ def sort_key(facts, res):
     i, c0 = cut
     res.instance(R5, "leaf cut", facts.loc(i), c0[:120])
     m = re.match(r"^(\w+)\.empty\(\)\|\|\1\.back\(\)\.(\w+)!=%s\[(\w+)\]\.(\w+)$" % re.escape(arrname or "?"), c0)
+    elem = None
+    if not m:
+        # the sorted array walked by a range-for: `for(const auto& e : sorted){ if(leaves.empty() || leaves.back().k != e.k) ...`
+        tbf.link_parents(body)
+        for rf in [a_ for a_ in tbf.ancestors(i) if a_.get("k") == "CXXForRangeStmt"]:
+            if arrname and arrname in facts.ntext(rf).split("{")[0]:
+                vs = [v for v in walk(rf) if v.get("k") == "VarDecl" and v.get("name") and re.search(r"\b%s\.(\w+)" % re.escape(v["name"]), c0)]
+                for v in vs:
+                    mm = re.match(r"^(\w+)\.empty\(\)\|\|\1\.back\(\)\.(\w+)!=%s\.(\w+)$" % re.escape(v["name"]), c0)
+                    if mm:
+                        elem = v["name"]
+
+                        class _M:
+                            def __init__(self, g): self.g = g
+                            def group(self, k): return self.g[k]
+                        m = _M({1: mm.group(1), 2: mm.group(2), 3: None, 4: mm.group(3)})
     if not m:
         raise AnalysisBroken("%s: leaf cut condition `%s` not recognised" % (cls, c0[:100]))
     if m.group(4) != key:
@@ -907,7 +923,8 @@ def sort_key(facts, res):
     if i["b"] < srt["b"]:
         res.violation(R5, tbf.rel(facts.path_of(i)), ctor["qname"], "cut-before-sort", i["l"][1], "leaves are cut before the particles are sorted")
     then = facts.ntext(i["c"][-2] if len(i["c"]) >= 3 else i["c"][1])
-    if not re.search(r"%s\.back\(\)\.%s=%s\[%s\]\.%s;" % (m.group(1), m.group(2), re.escape(arrname), m.group(3), key), then):
+    rec_rx = r"%s\.back\(\)\.%s=%s\.%s;" % (m.group(1), m.group(2), re.escape(elem), key) if elem else r"%s\.back\(\)\.%s=%s\[%s\]\.%s;" % (m.group(1), m.group(2), re.escape(arrname), m.group(3), key)
+    if not re.search(rec_rx, then):
         res.violation(R5, tbf.rel(facts.path_of(i)), ctor["qname"], "cut-record", i["l"][1], "the new leaf does not record the key it was cut on")
     # accessors hand out the same members
     acc = method(facts, cls, "getSpacialIndexForLeaf")
